@@ -120,6 +120,7 @@ namespace outer {
 }
 struct Top { outer::Out o; };
 int topfn(Top t);
+namespace codec { enum { CODEC_A = 1, CODEC_B }; }
 """,
         "decls": {
             # methods are items of their own, reached over Method edges: blocklisting the class does
@@ -138,6 +139,10 @@ int topfn(Top t);
             "outer::use_out": decl("function", "outer::use_out", ["outer::Out"], ["root::outer::use_out"]),
             "Top": decl("type", "Top", ["outer::Out"], ["root::Top"]),
             "topfn": decl("function", "topfn", ["Top"], ["root::topfn"]),
+            # an unnamed enum inside a namespace is selected through the paths of its variants
+            "codec::anon": decl("anonenum", "codec::CODEC_A", [],
+                                ["root::codec::codec_CODEC_A", "root::codec::codec_CODEC_B", "root::codec::_bindgen_ty_1"],
+                                names=["codec::CODEC_A", "codec::CODEC_B"], alt=False),
         }},
 }
 
